@@ -12,6 +12,11 @@ from tqv import gen, ref, sdp_ref
 from tqv.core import Inconclusive, SubCheck, Violation, req
 from tqv.props import _ens
 
+# caller-owned arrays handed to the library must come back unchanged (see tqv/purity.py)
+from tqv.purity import install as _install_purity  # noqa: E402
+
+_install_purity('toqito.state_opt')
+
 PROPERTY = "C12"
 RULE = (
     "Bipartite ensembles drawn by Hypothesis on 2x2, 2x3 and 3x2: 2..4 states; family (generic kets, mixed states of "
